@@ -576,8 +576,8 @@ def correspondence(ctx, model_ok=True):
         for (name, src, exp), r in zip(cases, res):
             c = progs.canon_step(r)
             printed = list(c[2]) if len(c) > 2 else []
-            if c[0] != "ok" or printed != exp:
-                k = next((i for i in range(min(len(printed), len(exp))) if printed[i] != exp[i]), min(len(printed), len(exp)))
+            if c[0] != "ok" or len(printed) != len(exp) or not all(same_value_text(x, y) for x, y in zip(printed, exp)):
+                k = next((i for i in range(min(len(printed), len(exp))) if not same_value_text(printed[i], exp[i])), min(len(printed), len(exp)))
                 failures.append({"what": "program prints something other than the reference evaluation (line %d: got %r, expected %r; status %s %s)" % (
                     k, printed[k:k + 1], exp[k:k + 1], c[0], list(c[3])[:1] if len(c) > 3 else ""),
                     "program": src, "expected": exp, "printed": printed,
